@@ -45,7 +45,12 @@ func gets(n int) []byte {
 
 // Module returns the binary and the list of its functions (function i is exported as "op<i>").
 // Features needed: V2 + threads + tail calls.
-func Module() ([]byte, []Fn) {
+func Module() ([]byte, []Fn) { return ModuleCopies(1) }
+
+// ModuleCopies is Module with every function present `copies` times (function k of copy c is exported as
+// "op<c*N+k>"): whatever a back end keeps per FUNCTION and resets between functions (cached constant-pool
+// indexes, register state, label tables) is then needed by a later function of the same module again.
+func ModuleCopies(copies int) ([]byte, []Fn) {
 	m := wb.New()
 	one := uint32(4)
 	m.Memory(1, &one, false, "memory")
@@ -60,7 +65,9 @@ func Module() ([]byte, []Fn) {
 		fns = append(fns, Fn{name, params, results})
 	}
 	un := func(name string, p, r byte, enc []byte) { add(name, []byte{p}, []byte{r}, wb.Cat(gets(1), enc)) }
-	bin := func(name string, p1, p2, r byte, enc []byte) { add(name, []byte{p1, p2}, []byte{r}, wb.Cat(gets(2), enc)) }
+	bin := func(name string, p1, p2, r byte, enc []byte) {
+		add(name, []byte{p1, p2}, []byte{r}, wb.Cat(gets(2), enc))
+	}
 
 	// ---- scalar numeric 0x45..0xc4
 	cmp := map[string]bool{"eq": true, "ne": true, "lt": true, "gt": true, "le": true, "ge": true, "lt_s": true, "lt_u": true, "gt_s": true, "gt_u": true, "le_s": true, "le_u": true, "ge_s": true, "ge_u": true}
@@ -182,5 +189,14 @@ func Module() ([]byte, []Fn) {
 	add("return_call_indirect", ii, []byte{wb.I32}, wb.Cat(wb.LocalGet(0), wb.LocalGet(1), wb.I32Const(0), []byte{wasm.OpcodeTailCallReturnCallIndirect}, wb.U32(m.TypeIdx(ii, []byte{wb.I32})), []byte{0}))
 	add("unreachable", nil, nil, []byte{wasm.OpcodeUnreachable})
 	add("nop/drop", []byte{wb.F64}, nil, wb.Cat([]byte{wasm.OpcodeNop}, gets(1), []byte{wasm.OpcodeDrop}))
+	n := len(fns)
+	for c := 1; c < copies; c++ {
+		for k := 0; k < n; k++ {
+			m.M.FunctionSection = append(m.M.FunctionSection, m.M.FunctionSection[k])
+			m.M.CodeSection = append(m.M.CodeSection, m.M.CodeSection[k])
+			m.M.ExportSection = append(m.M.ExportSection, wasm.Export{Name: fmt.Sprintf("op%d", c*n+k), Type: wasm.ExternTypeFunc, Index: uint32(c*n + k)})
+			fns = append(fns, fns[k])
+		}
+	}
 	return m.BytesWithSegments([]wb.Elem{{Offset: 0, Init: []int64{int64(iadd), int64(iadd), 2}}}), fns
 }
